@@ -90,7 +90,10 @@ type qVal struct {
 	I     int64    `json:"i,omitempty"`
 	SA    []string `json:"sa,omitempty"`
 	IA    []int64  `json:"ia,omitempty"`
+	Ms    int      `json:"ms,omitempty"` // millisecond part of a time value
 }
+
+func (v qVal) instant() time.Time { return time.Unix(v.I, int64(v.Ms)*int64(time.Millisecond)) }
 
 type qCond struct {
 	Conn string `json:"conn,omitempty"` // AND | OR (before this condition)
@@ -130,7 +133,7 @@ func (v qVal) literal(listPos bool) (string, bool) {
 	case "null":
 		return "NULL", true
 	case "ts":
-		return quote(time.Unix(v.I, 0).UTC().Format(time.RFC3339)), true
+		return quote(v.instant().UTC().Format(time.RFC3339Nano)), true
 	case "strarr":
 		if !listPos || len(v.SA) == 0 {
 			return "", false
@@ -166,7 +169,7 @@ func (v qVal) tagValue() *modelv1.TagValue {
 	case "intarr":
 		return &modelv1.TagValue{Value: &modelv1.TagValue_IntArray{IntArray: &modelv1.IntArray{Value: v.IA}}}
 	case "ts":
-		return &modelv1.TagValue{Value: &modelv1.TagValue_Timestamp{Timestamp: timestamppb.New(time.Unix(v.I, 0))}}
+		return &modelv1.TagValue{Value: &modelv1.TagValue_Timestamp{Timestamp: timestamppb.New(v.instant())}}
 	case "bin":
 		return &modelv1.TagValue{Value: &modelv1.TagValue_BinaryData{BinaryData: []byte(v.S)}}
 	}
@@ -440,12 +443,12 @@ func genC20(t *rapid.T) qCase {
 	if c.Kind != "property" && (c.Kind == "measure" || c.Kind == "measure-top" || c.Kind == "topn" || rapid.Bool().Draw(t, "hastime")) {
 		c.TimeOp = rapid.SampledFrom([]string{">", ">=", "<", "<=", "=", "BETWEEN"}).Draw(t, "timeop")
 		mk := func(label string) *qVal {
-			v := qVal{Param: param(), I: int64(rapid.IntRange(1_600_000_000, 1_800_000_000).Draw(t, label))}
+			v := qVal{Param: param(), I: int64(rapid.IntRange(1_600_000_000, 1_800_000_000).Draw(t, label)), Ms: rapid.SampledFrom([]int{0, 0, 1, 500, 999}).Draw(t, label+"/ms")}
 			if v.Param && rapid.Bool().Draw(t, label+"/asts") {
 				v.K = "ts"
 			} else {
 				v.K = "str"
-				v.S = time.Unix(v.I, 0).UTC().Format(time.RFC3339)
+				v.S = v.instant().UTC().Format(time.RFC3339Nano)
 			}
 			if v.Param {
 				n++
@@ -457,7 +460,8 @@ func genC20(t *rapid.T) qCase {
 			c.TimeB = mk("tb")
 			if c.TimeB.I < c.TimeA.I {
 				c.TimeA.I, c.TimeB.I = c.TimeB.I, c.TimeA.I
-				c.TimeA.S, c.TimeB.S = time.Unix(c.TimeA.I, 0).UTC().Format(time.RFC3339), time.Unix(c.TimeB.I, 0).UTC().Format(time.RFC3339)
+				c.TimeA.Ms, c.TimeB.Ms = c.TimeB.Ms, c.TimeA.Ms
+				c.TimeA.S, c.TimeB.S = c.TimeA.instant().UTC().Format(time.RFC3339Nano), c.TimeB.instant().UTC().Format(time.RFC3339Nano)
 			}
 		}
 	}
@@ -584,7 +588,7 @@ func genC20(t *rapid.T) qCase {
 		case *modelv1.TagValue_IntArray:
 			c.Second = append(c.Second, qVal{K: "intarr", IA: v.IntArray.GetValue()})
 		case *modelv1.TagValue_Timestamp:
-			c.Second = append(c.Second, qVal{K: "ts", I: v.Timestamp.GetSeconds()})
+			c.Second = append(c.Second, qVal{K: "ts", I: v.Timestamp.GetSeconds(), Ms: int(v.Timestamp.GetNanos() / 1_000_000)})
 		default:
 			c.Second = append(c.Second, qVal{K: "null"})
 		}
